@@ -183,6 +183,10 @@ func runC19(c *sim.Ctx) {
 	c.Log.Add("sim", "query", "%s rows=%d mode=%d", query, len(native), mode)
 	c.Note("query: %s (native rows: %d)", query, len(native))
 	c.Sample = map[string]interface{}{"query": query, "native_rows": len(native), "mode": []string{"database/sql complete+close/cancel at k", "driver.Stmt with parked producer", "fault mid-scan", "error inputs"}[mode]}
+	// one P: a goroutine created by the code under test does not run before the
+	// scheduler goroutine blocks, so "Close arrives before the producer was ever
+	// scheduled" is a reachable, repeatable order
+	runtime.GOMAXPROCS(1)
 	before := runtime.NumGoroutine()
 	var viol *sim.Violation
 	fail := func(kind, sig, msg string) {
@@ -311,7 +315,11 @@ func runC19(c *sim.Ctx) {
 				failAt = 1 + s.Draw(30, "failat")
 				c.Fault("read-error-mid-scan")
 			}
+			closeReturned := false
 			tr.Event = func(kind string, n int, err error) {
+				if closeReturned && (kind == "page" || kind == "lock-ok" || kind == "lock-fail") {
+					fail("producer-after-close", "producer-after-close", fmt.Sprintf("%s: the producer touched the database (%s) after rows.Close() had returned", query, kind))
+				}
 				if kind == "page" && gated {
 					reads++
 					<-gate // park (durably blocking inside the bubble)
@@ -365,6 +373,20 @@ func runC19(c *sim.Ctx) {
 						return
 					}
 				}
+			}
+			if s.Chance(1, 6, "immediate-close") {
+				// Close (or cancel+Close) before the producer goroutine was ever scheduled
+				if s.Chance(1, 2, "cancel-first") {
+					cancel()
+				}
+				cerr := rows.Close()
+				closeReturned = true
+				note("rows.Close() immediately after QueryContext (producer never scheduled yet) -> %v", cerr)
+				c.Fault("close-before-producer-start")
+				synctest.Wait()
+				stmt.Close()
+				synctest.Wait()
+				return
 			}
 			synctest.Wait() // the producer runs until its first blocking point
 			// from here on the producer parks at every page read
@@ -453,6 +475,7 @@ func runC19(c *sim.Ctx) {
 						select {
 						case <-cd:
 							closed = true
+							closeReturned = true
 						case gate <- struct{}{}:
 						default:
 							k = 100000 // nothing can move any more
@@ -499,6 +522,7 @@ func runC19(c *sim.Ctx) {
 						// a page read of the scan failed: reading to the end must not end quietly
 						cerr := rows.Close()
 						closed = true
+						closeReturned = true
 						if finalErr == nil && cerr == nil {
 							fail("error-swallowed", "error-swallowed", fmt.Sprintf("%s: a page read failed during the scan (read %d); the driver delivered %d of %d rows, then io.EOF, and Close returned nil", query, tr.FailAt, len(got), len(nat)))
 						}
@@ -507,6 +531,7 @@ func runC19(c *sim.Ctx) {
 				}
 				if !closed {
 					rows.Close()
+					closeReturned = true
 				}
 			}
 			if okp, at := prefixOf(got, nat); !okp {
